@@ -225,5 +225,31 @@ pub fn listed_groups(quick: bool) -> Vec<(&'static str, Vec<Case>)> {
 	}
 	groups.push(("cldc-stack-map", cases));
 
+	// 9. debug tables that are present but empty (a fact of its own: "has a table, with nothing in it"), in each way a
+	// class file can state it, alone and next to a non-empty table of the other kind, in two methods of one class
+	let mut cases: Vec<Case> = Vec::new();
+	for bits in 1..8u32 {
+		for kind in 0..3u8 {
+			let mut c = skeleton("p/EmptyDebug");
+			for (mi, mbits) in [(0usize, bits), (1, 7 & !bits), (2, 0)] {
+				let mut m = method_with(&format!("m{mi}"), "()V", vec![SInsn::Simple(op::NOP), RETURN]);
+				if let Some(code) = &mut m.code {
+					code.max_locals = 2;
+					code.empty_line_table = mbits & 1 != 0;
+					code.empty_local_table = mbits & 2 != 0;
+					if mbits & 4 != 0 {
+						// a non-empty table of the other kind next to the empty one
+						if code.empty_line_table { code.local_vars.push(SLocalVar { start: 0, end: 2, name: js("v"), ty: js("I"), index: 1 }); code.empty_local_table = false; } else { code.line_numbers.push((1, 7)); }
+					}
+				}
+				c.methods.push(m);
+			}
+			normalize(&mut c);
+			cases.push((format!("empty-debug-tables/bits{bits}/kind{kind}"), c.clone(), Encoding { empty_local_kind: kind, ..Default::default() }));
+			cases.push((format!("empty-debug-tables/bits{bits}/kind{kind}/reversed"), c, Encoding { empty_local_kind: kind, attr_order: AttrOrder::Reversed, ..Default::default() }));
+		}
+	}
+	groups.push(("empty-debug-tables", cases));
+
 	groups
 }
